@@ -102,6 +102,7 @@ package atree
 
 //@ func unwrapStorable(s) (r)  serves C11
 //@   ensures !is(s, WrapperStorable) ==> r == s
+//@   ensures s != nil && is(s, WrapperStorable) ==> r == unw(s)
 //@   pure
 
 //@ pred mapParentUntouched() = sto == old(sto) && touched == old(touched) && stored == old(stored) &&
